@@ -153,6 +153,97 @@ func TestC22(t *testing.T) {
 		rec.Witnessed(sigNoopEntry, c22Witness(base))
 	}
 
+	// torn writes INSIDE a large record: a log whose middle entry carries 70..200 KiB (several
+	// disk blocks); one block-sized or smaller hole (zeros or garbage) somewhere in that entry's
+	// payload, everything before and after it - including the entry's own trailing bytes and the
+	// entries behind it - intact. The suffix fills below always destroy the end of an entry too.
+	{
+		rng := rand.New(rand.NewSource(ev.ShardSeed()))
+		for round, rounds := 0, ev.Pick(2, 12); round < rounds; round++ {
+			bigN := []int{70 << 10, 100 << 10, 200 << 10}[rng.Intn(3)]
+			hist := []op{
+				{Kind: "Put", Key: keyAlphabet[0], Val: &valSpec{N: 9, Tag: 'p'}},
+				{Kind: "Put", Key: keyAlphabet[1], Val: &valSpec{N: bigN, Tag: byte('a' + round%26)}},
+				{Kind: "Put", Key: keyAlphabet[2], Val: &valSpec{N: 7, Tag: 'q'}},
+			}
+			dir := scratchDir(base, "c22big")
+			run, err := startAOF(dir, chord.Hash)
+			if err != nil {
+				t.Fatalf("harness: cannot create aof store: %v", err)
+			}
+			legal := map[string]int{kvmodel.New(kvmodel.HashFn(chord.Hash)).Digest(keyAlphabet, false): 0}
+			for i, o := range hist {
+				if mm := run.mutate(rec, id, o); mm != nil {
+					run.kv.Stop()
+					rec.Fail(t, mm.Sig, map[string]any{"history": hist, "failed_at": i, "why": mm.Text}, "while building the log, step %d: %s", i, mm.Text)
+				}
+				legal[run.tr.m.Digest(keyAlphabet, false)] = i + 1
+			}
+			run.kv.Stop()
+			segs, err := segmentFiles(dir)
+			if err != nil || len(segs) != 1 {
+				os.RemoveAll(dir)
+				rec.Inconclusive("large-entry-log-not-in-one-segment")
+				continue
+			}
+			last, err := os.ReadFile(filepath.Join(dir, aof.LogDir, segs[0]))
+			os.RemoveAll(dir)
+			if err != nil {
+				t.Fatalf("harness: %v", err)
+			}
+			bounds, err := entryBounds(last)
+			if err != nil || len(bounds) != 4 {
+				t.Fatalf("harness: cannot parse the intact segment: %v %v", err, bounds)
+			}
+			lo, hi := bounds[1], bounds[2]
+			for h := 0; h < ev.Pick(60, 200); h++ {
+				hole := []int{1, 64, 512, 4096}[rng.Intn(4)]
+				// anywhere in the entry but its last 32 bytes; two thirds of the holes deep inside
+				off := lo + 16 + rng.Intn(hi-lo-48-hole)
+				if h%3 != 0 && hi-lo > 70000+hole+48 {
+					off = lo + 66000 + rng.Intn(hi-lo-66000-48-hole)
+				}
+				kind := []string{"hole-zero", "hole-garbage"}[rng.Intn(2)]
+				d := append([]byte(nil), last...)
+				changed := false
+				for i := off; i < off+hole; i++ {
+					b := byte(0)
+					if kind == "hole-garbage" {
+						b = byte(rng.Intn(256))
+					}
+					changed = changed || d[i] != b
+					d[i] = b
+				}
+				if !changed {
+					continue
+				}
+				img := image{Kind: kind, Offset: off, Entry: 1, inside: true, data: d}
+				opened, _, state, readErr := func() (o bool, oe error, st map[string]kvmodel.Transfer, re error) {
+					defer func() {
+						if r := recover(); r != nil {
+							oe, re, o = nil, fmt.Errorf("panic: %v", r), true
+						}
+					}()
+					return openImage(base, nil, segs[0], img, keyAlphabet)
+				}()
+				rec.Case(true, fmt.Sprintf("large-entry|%d|%s|%d|%d|%d", bigN, kind, off-lo, hole, round), func() any {
+					return map[string]any{"entry_bytes": hi - lo, "hole_at_offset_in_entry": off - lo, "hole_bytes": hole, "kind": kind, "opened": opened}
+				}, "image:"+kind, "history:large-entry")
+				if !opened {
+					continue
+				}
+				doc := map[string]any{"history": hist, "segment_bytes": len(last), "entry_starts": bounds, "damaged_entry": 1, "hole_offset": off, "hole_offset_in_entry": off - lo, "hole_bytes": hole, "kind": kind}
+				if readErr != nil {
+					rec.Fail(t, "aof-torn-log-opened-but-unreadable", doc, "a %d-byte %s at offset %d of a %d-byte entry: opened but reading failed: %v", hole, kind, off-lo, hi-lo, readErr)
+				}
+				if dg := digestOf(state, keyAlphabet); legal[dg] == 0 && dg != kvmodel.New(kvmodel.HashFn(chord.Hash)).Digest(keyAlphabet, false) {
+					rec.Fail(t, "aof-torn-log-yields-impossible-state", doc,
+						"a %d-byte %s at offset %d inside the %d-byte second entry (everything else intact): the store opened with a state that no prefix of the 3 acknowledged mutations produces: %s", hole, kind, off-lo, hi-lo, dg)
+				}
+			}
+		}
+	}
+
 	ev.RapidCheck(t, 16, 320, func(t *rapid.T) {
 		big := ev.Thorough() && rapid.IntRange(0, 5).Draw(t, "big") == 0
 		n := rapid.IntRange(5, 25).Draw(t, "n")
